@@ -681,6 +681,8 @@ def guarded_attribute_maps(ctx, T: "XTyper", res: RuleResult, rule_id: str):
                             break
                         T2.stmt(fi, st_, env)
                     vals = T2.ev(fi, a.args[0].args[0], env)
+                except (NameError, UnboundLocalError):
+                    raise
                 except Exception:
                     return False
                 n_ = T2.len_symbol(fi, b, env)
